@@ -414,7 +414,7 @@ SAME_UNARY = {
 }
 SAME_NARY = {
     'numpy.where_', 'builtins.max', 'builtins.min', 'numpy.maximum', 'numpy.minimum', 'numpy.append',
-    'numpy.hypot', 'numpy.fmax', 'numpy.fmin', 'numpy.linspace_', 'numpy.heaviside_',
+    'numpy.hypot', 'math.hypot', 'numpy.fmax', 'numpy.fmin', 'numpy.linspace_', 'numpy.heaviside_',
 }
 DIMLESS_ARG = {
     'numpy.exp', 'numpy.log', 'numpy.log10', 'numpy.sin', 'numpy.cos', 'numpy.tan', 'numpy.sinh',
